@@ -605,7 +605,7 @@ func (fr *Frame) ghostOnAssign(st *State, x *ssa.Store) {
 		return
 	}
 	for _, gu := range fr.fc.GhostUps {
-		if gu.Local != a.Comment {
+		if gu.OnCall != "" || gu.Local != a.Comment {
 			continue
 		}
 		if gu.Loop != 0 && !fr.blockInLoop(x.Block(), gu.Loop) {
